@@ -448,6 +448,22 @@ fn check_ready(kind: &str, inner: &str, n: usize, h: &[f64]) -> Option<String> {
     }
     None
 }
+/// readiness of the binary combinators: a value exactly when both children have one, never reverting, finite
+fn check_ready2(op: &str, ka: &str, kb: &str, n: usize, h: &[f64]) -> Option<String> {
+    let mut chain = make2(op, make(ka, echo(), n), make(kb, echo(), n));
+    let mut a = make(ka, echo(), n); let mut b = make(kb, echo(), n);
+    let mut ready = false;
+    for (t, &x) in h.iter().enumerate() {
+        chain.update(x); a.update(x); b.update(x);
+        if op == "divide" && b.last() == Some(0.0) { return None; }                      // outside the stated domain
+        let both = a.last().is_some() && b.last().is_some();
+        let o = chain.last();
+        if o.is_some() != both { return Some(format!("step {t}: combinator reports {o:?} while its children report {:?} and {:?}", a.last(), b.last())); }
+        if ready && o.is_none() { return Some(format!("step {t}: readiness reverted")); }
+        if let Some(v) = o { if !v.is_finite() { return None; } ready = true; }
+    }
+    None
+}
 fn check_finite_memory(kind: &str, n: usize, pre1: &[f64], pre2: &[f64], suffix: &[f64]) -> Option<String> {
     let n = n.max(min_n(kind));
     let k = match kind { "rsi" | "my_rsi" | "roc" => n + 1, "alma" => 2 * n, "pfe" => n + 2 - 1, _ => n };
@@ -645,7 +661,7 @@ fn eval_inner(c: &Case) -> Option<String> {
         "C03" => check_finite_memory(k, n, h, &c.stream2, &c.stream2[c.stream2.len().saturating_sub(c.b as usize)..]).or(None),
         "C04" => check_functional_over(k, &c.inner, n, h).or_else(|| check_average(k, n, h, c.a, c.b)),
         "C07" => check_range(k, n, h),
-        "C08" => check_ready(k, &c.inner, n, h),
+        "C08" => if BINARY.contains(&k) { let (x, y) = c.inner.split_once('+').unwrap(); check_ready2(k, x, y, n, h) } else { check_ready(k, &c.inner, n, h) },
         "C09" => check_stability(k, n, h, &c.stream2),
         "C10" => check_linear(k, n, h, &c.stream2, c.a, c.b),
         "C12" => check_invariance(k, n, h, c.a, c.b).or_else(|| check_negation(k, n, h)),
@@ -692,9 +708,15 @@ fn search(prop: &str, s: &mut Search) -> (usize, Option<Case>) {
                 if positive_only(k) { c.inner = s.rng.pick(&["echo", "sma", "max", "ema", "cumulative"]).into(); c.stream = gen_stream(&mut s.rng, len, true);
                     if c.inner != "echo" && prop == "C01" { for i in 1..c.stream.len() { if s.rng.below(5) == 0 { c.stream[i] = 0.0; } } } }
                 if c.inner == "ln_return" { c.stream = gen_stream(&mut s.rng, len, true); if positive_only(k) { c.inner = "echo".into(); } }
-                if prop == "C01" && s.rng.below(5) == 0 { let op = s.rng.pick(BINARY); c.view = op.into(); c.inner = format!("{}+{}", s.rng.pick(&inners[..8]), s.rng.pick(&inners[..8])); }
+                if (prop == "C01" && s.rng.below(5) == 0) || (prop == "C08" && s.rng.below(8) == 0) { let op = s.rng.pick(BINARY); c.view = op.into(); c.inner = format!("{}+{}", s.rng.pick(&inners[..8]), s.rng.pick(&inners[..8])); }
             }
-            "C02" | "C04" | "C05" | "C06" | "C11" | "C13" => if s.rng.below(3) == 0 && !positive_only(k) && prop != "C13" { c.inner = s.rng.pick(if residue_sensitive(k) { &["sma", "max", "gte", "cumulative", "min", "lte"][..] } else { &["sma", "tanh", "ema", "max", "gte", "cumulative"][..] }).into(); },
+            "C02" | "C04" | "C05" | "C06" | "C11" | "C13" => {
+                if s.rng.below(3) == 0 && !positive_only(k) && prop != "C13" { c.inner = s.rng.pick(if residue_sensitive(k) { &["sma", "max", "gte", "cumulative", "min", "lte"][..] } else { &["sma", "tanh", "ema", "max", "gte", "cumulative"][..] }).into(); }
+                // C13: WelfordRolling is not restricted to positive inputs and may sit on a view that is silent at first
+                if prop == "C13" && k == "welford_rolling" && s.rng.below(3) == 0 { c.inner = s.rng.pick(&["sma", "max", "cumulative"]).into(); }
+                // C06: the three indicators are ratios - tiny units (an exact power of two) must not change them (absolute thresholds)
+                if prop == "C06" && c.inner == "echo" && s.rng.below(4) == 0 { for x in c.stream.iter_mut() { *x *= (2.0f64).powi(-40); } }
+            },
             "C14" => if BINARY.contains(&k) { c.inner = format!("{}+{}", s.rng.pick(&inners[..8]), s.rng.pick(&inners[..8])); }
                      else if k != "echo" { c.inner = s.rng.pick(&["echo", "sma", "cumulative", "roc", "ema", "max"]).into(); },
             "C03" => { let kk = 2 * n + 3; let extra = s.rng.below(4) as usize; let suffix = gen_stream(&mut s.rng, kk + extra, false);
